@@ -348,7 +348,7 @@ CATALOGUE = [
     R("c03-rename-nodes-5", "C03", CPYX, "_local_cliquishness_5thorder",
       {"node1": "u", "node2": "v", "node3": "w", "node4": "x"}),
     R("c11-rename-nodes", "C11", CPYX, "_cross_local_clustering",
-      {"node1": "u", "node2": "v", "node3": "w"}),
+      {"n1": "zu", "n2": "zv", "n3": "zw", "counter": "ztri"}),
     R("c12-rename-expr", "C12", CPYX, "_calculate_angular_distance", {"expr": "c"}),
     R("c12-rename-ij", "C12", CPYX, "_calculate_angular_distance", {"i": "p", "j": "q"}),
     R("c14-rename-ijk", "C14", TPYX, "_visibility_relations_no_missingvalues",
@@ -356,13 +356,13 @@ CATALOGUE = [
     R("c14-rename-test", "C14", TPYX, "_visibility_relations_no_missingvalues",
       {"test": "slope"}),
     R("c08-rename-linedist", "C08", TPYX, "_line_dist",
-      {"k": "length", "line": "inside", "missing_flag": "mflag"}),
+      {"k": "zlen", "line": "zinside", "missing_flag": "zmflag"}),
     R("c08-rename-IJ", "C08", TPYX, "_line_dist", {"I": "row", "j": "col"}),
     R("c19-rename-nsi-betw", "C19", CPYX, "_nsi_betweenness", {"j": "jj", "i": "ii"}),
     R("c20-rename-nsi-betw", "C20", CPYX, "_nsi_betweenness", {"j": "jj", "i": "ii"}),
     R("c20-rename-mi", "C20", TPYX, "_test_mutual_information", {"N": "n_nodes"}),
     R("c07-rename-adaptive", "C07", TPYX, "_set_adaptive_neighborhood_size",
-      {"i": "a", "j": "b"}),
+      {"i": "zi", "j": "zj", "l": "zl"}),
     T("c14-while-reorder", "C14", TPYX,
       "            while (x[k] - x[i]) / (t[k] - t[i]) < test and k < j:",
       "            while k < j and (x[k] - x[i]) / (t[k] - t[i]) < test:"),
